@@ -147,10 +147,11 @@ the admissible slices in increasing order (the `dict` is not involved) -/
 theorem data_designated_partial {φ : Type} [DecidableEq φ] (files : List (φ × Option Nat)) (filt : Option PySliceT) :
     (parseFilenames files filt).data = dataOf filt (readable files) := parse_data_spec files filt
 
-/-- **finding**: `volume_indices` is keyed by file name, so a name that occurs twice (overlapping `.lst`
-lists, a repeated entry of `filenames_filter`) keeps only its last range: indices `0 … 2` below belong to
-no volume although `len(dataset) = 9` -/
-theorem duplicate_names_current_violates :
+/-- regression (pinned tree: repeated names reached the fold): `volume_indices` is keyed by file name, so a
+name that occurs twice (overlapping `.lst` lists, a repeated entry of `filenames_filter`) kept only its last
+range: indices `0 … 2` below belong to no volume although `len(dataset) = 9`.  The current constructors
+drop repeated names first (`select_nodup`). -/
+theorem duplicate_names_pinned_violates :
     (parseFilenames [((1 : Nat), some 3), (2, some 3), (1, some 3)] none).vols = [(1, 6, 9), (2, 3, 6)] ∧
     (parseFilenames [((1 : Nat), some 3), (2, some 3), (1, some 3)] none).data.length = 9 ∧
     ∀ v ∈ (parseFilenames [((1 : Nat), some 3), (2, some 3), (1, some 3)] none).vols, ¬ (v.2.1 ≤ 0 ∧ 0 < v.2.2) := by
@@ -159,38 +160,80 @@ theorem duplicate_names_current_violates :
 /-! ## which files: `filenames_filter` / `filenames_lists` / directory listing / `regex_filter` -/
 
 /-- an explicit `filenames_filter` decides alone (listing and lists are not consulted) -/
-theorem select_filter_wins {φ : Type} (srt : Bool) (le : φ → φ → Bool) (sel : Selection φ) (fs : List φ)
+theorem select_filter_wins {φ : Type} [DecidableEq φ] (srt : Bool) (le : φ → φ → Bool) (sel : Selection φ) (fs : List φ)
     (h : sel.filter = some fs) :
-    selectFiles srt le sel = .ok (if sel.hasRegex then fs.filter sel.regexOk else fs) := by
+    selectFiles srt true le sel =
+      .ok (if sel.hasRegex then (dedupFirst fs).filter sel.regexOk else dedupFirst fs) := by
   simp [selectFiles, h]
 
-/-- **if the directory listing is sorted, the selected files — hence the whole index ↦ (file, slice)
-mapping — do not depend on the order in which the operating system lists the directory** -/
-theorem select_listing_invariant {φ : Type} (le : φ → φ → Bool)
+/-- **the selected files never repeat a name** (whatever the filter, the lists or the listing contain), so
+the hypothesis of the partition theorems is met by every dataset the constructors build … -/
+theorem select_nodup {φ : Type} [DecidableEq φ] (srt : Bool) (le : φ → φ → Bool) (sel : Selection φ) (fs : List φ)
+    (h : selectFiles srt true le sel = .ok fs) : fs.Nodup := by
+  unfold selectFiles at h
+  simp only [if_true] at h
+  split at h
+  · cases h
+  · rename_i base hb
+    have e := Except.ok.inj h
+    rw [← e]
+    split
+    · exact (dedupFirst_nodup base).sublist List.filter_sublist
+    · exact dedupFirst_nodup base
+
+/-- … **hence every `H5SliceData`-based dataset has contiguous ranges covering `0 … len-1`**, with no
+assumption on its arguments. -/
+theorem build_ranges_contiguous {φ : Type} [DecidableEq φ] (srt : Bool) (le : φ → φ → Bool) (sel : Selection φ)
+    (nOf : φ → Option Nat) (F : FilterArg) (P : Parsed φ) (h : buildH5 srt true le sel nOf F = .ok P) :
+    Contiguous 0 P.vols P.data.length := by
+  unfold buildH5 at h
+  split at h
+  · cases h
+  · rename_i fs hfs
+    have hnd : ((readable (fs.map fun f => (f, nOf f))).map (·.1)).Nodup := by
+      rw [readable_map_fst]
+      exact (select_nodup srt le sel fs hfs).sublist List.filter_sublist
+    unfold parseChecked at h
+    cases F with
+    | none => simp only at h; rw [← Except.ok.inj h]; exact ranges_contiguous _ none hnd
+    | other =>
+      simp only at h
+      split at h
+      · cases h
+      · rw [← Except.ok.inj h]; exact ranges_contiguous _ none hnd
+    | slice sl =>
+      simp only at h
+      split at h
+      · cases h
+      · rw [← Except.ok.inj h]; exact ranges_contiguous _ (some sl) hnd
+
+/-- **with the listing sorted, the selected files — hence the whole index ↦ (file, slice) mapping — do
+not depend on the order in which the operating system lists the directory** -/
+theorem select_listing_invariant {φ : Type} [DecidableEq φ] (dd : Bool) (le : φ → φ → Bool)
     (htot : ∀ a b, le a b = true ∨ le b a = true)
     (htr : ∀ a b c, le a b = true → le b c = true → le a c = true)
     (hanti : ∀ a b, le a b = true → le b a = true → a = b)
     (sel : Selection φ) (listing' : List φ) (h : sel.listing.Perm listing') :
-    selectFiles true le { sel with listing := listing' } = selectFiles true le sel := by
+    selectFiles true dd le { sel with listing := listing' } = selectFiles true dd le sel := by
   simp only [selectFiles, if_true]
   rw [sortFiles_eq_of_perm le htot htr hanti sel.listing listing' h]
 
-theorem build_listing_invariant {φ : Type} [DecidableEq φ] (le : φ → φ → Bool)
+theorem build_listing_invariant {φ : Type} [DecidableEq φ] (dd : Bool) (le : φ → φ → Bool)
     (htot : ∀ a b, le a b = true ∨ le b a = true)
     (htr : ∀ a b c, le a b = true → le b c = true → le a c = true)
     (hanti : ∀ a b, le a b = true → le b a = true → a = b)
     (sel : Selection φ) (listing' : List φ) (h : sel.listing.Perm listing') (nOf : φ → Option Nat) (F : FilterArg) :
-    (buildH5 true le { sel with listing := listing' } nOf F).toOption.map (fun P => (P.data, P.vols)) =
-      (buildH5 true le sel nOf F).toOption.map (fun P => (P.data, P.vols)) := by
+    (buildH5 true dd le { sel with listing := listing' } nOf F).toOption.map (fun P => (P.data, P.vols)) =
+      (buildH5 true dd le sel nOf F).toOption.map (fun P => (P.data, P.vols)) := by
   unfold buildH5
-  rw [select_listing_invariant le htot htr hanti sel listing' h]
+  rw [select_listing_invariant dd le htot htr hanti sel listing' h]
 
-/-- **finding**: the current tree uses `list(self.root.glob("*.h5"))` unsorted — two directories with the
-same files, listed in different orders by the operating system, give different datasets -/
-theorem listing_order_current_violates :
-    (selectFiles listingSortedCurrent (fun a b => decide (a ≤ b))
+/-- regression (pinned tree: `list(self.root.glob("*.h5"))` unsorted) — two directories with the same
+files, listed in different orders by the operating system, gave different datasets -/
+theorem listing_order_pinned_violates :
+    (selectFiles false false (fun a b => decide (a ≤ b))
         ⟨[(2 : Nat), 1], none, none, false, false, fun _ => true⟩).toOption ≠
-      (selectFiles listingSortedCurrent (fun a b => decide (a ≤ b))
+      (selectFiles false false (fun a b => decide (a ≤ b))
         ⟨[1, 2], none, none, false, false, fun _ => true⟩).toOption := by
   decide
 
@@ -393,7 +436,9 @@ example : 2 < (readable exFiles).length := by decide
 example : ((readable exFiles).map (·.1)).Nodup := by decide
 example : cmrBlock .none 2 3 4 = some [(1, 1)] := by decide
 example : (cmrParse .time [((1 : Nat), some (2, 3)), (2, some (1, 4))]).vols = [(1, 0, 3), (2, 3, 7)] := by decide
-example : selectFiles true (fun a b => decide (a ≤ b)) ⟨[(2 : Nat), 3, 1], none, none, false, true, fun x => x != 3⟩ = .ok [1, 2] := by rfl
+example : selectFiles true true (fun a b => decide (a ≤ b)) ⟨[(2 : Nat), 3, 1], none, none, false, true, fun x => x != 3⟩ = .ok [1, 2] := by rfl
+example : selectFiles true true (fun a b => decide (a ≤ b)) ⟨[], some [(3 : Nat), 1, 3], none, false, false, fun _ => true⟩ = .ok [3, 1] := by rfl
+example : (buildH5 true true (fun a b => decide (a ≤ b)) ⟨[], some [(3 : Nat), 1, 3], none, false, false, fun _ => true⟩ (fun _ => some 2) .none).toOption.map (·.vols) = some [(3, 0, 2), (1, 2, 4)] := by decide
 example : sliceList (some ⟨none, none, some (-2)⟩) 5 = [0, 2, 4] := by decide
 example : numSlices (some ⟨some 50, some (-50), none⟩) 7 = 0 := by decide
 example : (2 : Nat) < 3 ∧ 4 < 2 * 2 + 1 := by decide
